@@ -17,6 +17,7 @@ import latexcheck
 from common import driver_batch
 
 ID = 'C17'
+EXTRA_MODULES = ['Mistletoe.Proofs.Latex', 'Mistletoe.Proofs.LatexEndToEnd']
 RULE = ('documents from the spec corpus, mutations, random documents and templates rich in $ # { } & _ % ^ \\\\ in text, '
         'link targets, image sources, titles and info strings; token trees additionally edited to carry such strings '
         'in every string attribute; escapers over single code points and random strings. Distinct by text; '
